@@ -32,7 +32,8 @@ DRIVERS = ['FinVerif.Driver.C20']
 RULE = ('scalar kernels: dense grid on [-38,38] (step 0.025) + seeded uniform/normal samples + boundary values '
         '(0, -0, denormals, +-35, +-38, branch points of norminvcdf and their neighbours), each compared '
         'compiled / py_func / Lean model and against SciPy; phi2: (h,k) grid x 25 correlations incl. +-0.7, '
-        '+-0.999999, +-1 and |h|>35; solvers: seeded cubic and exponential families x brackets / starts / '
+        '+-0.999999, +-1 and |h|>35, plus |rho| -> 1 geometrically (1-10^-k, 1-5*10^-k, k<=15, the doubles next to 1, +-1) x h2 = +-h1 '
+        'and h2 within a few sqrt(1-rho^2) of +-h1, against an Owen-T reference; solvers: seeded cubic and exponential families x brackets / starts / '
         'tolerances / iteration budgets; linear algebra: seeded systems n<=40. Non-trivial = result is a number '
         '(not an error) and the case is distinct by construction (grids) or by sampling from a continuous law.')
 
@@ -402,6 +403,7 @@ def phi2_section(ctx, meas, drivers_ok):
                 if nbad <= 3:
                     ctx.violation(f'phi2: error {e:.3e} against the exact bivariate normal CDF exceeds {PHI2_ABS:g}',
                                   {'kernel': 'phi2', 'h': h, 'k': k, 'r': r, 'got': v[1], 'exact': ref}, clause='accuracy')
+    phi2_near_one(ctx, meas, drivers_ok, fm, rng)
     # phi3 against SciPy's trivariate CDF (modest tolerance), compiled and py_func on a few points
     n3 = 12 if ctx.quick() else 60
     for i in range(n3):
@@ -432,6 +434,127 @@ def phi2_section(ctx, meas, drivers_ok):
 def ndtr1(x):
     from scipy.special import ndtr
     return ndtr(x)
+
+
+def bvn_ref(h, k, r):
+    """Exact bivariate normal CDF through Owen's T (scipy.special.owens_t), arranged so that nothing cancels as |r| -> 1:
+    1 - r (r > 0) and 1 + r (r < 0) are exact in binary floating point, k - r h is formed as (k - h) + h (1 - r).
+    asin closed form at h = k = 0; the comonotonic / countermonotonic limits at r = +-1.  Agrees with
+    scipy.stats.multivariate_normal to 4e-16 for |r| <= 0.99 (checked on every run by bvn_ref_selfcheck)."""
+    from scipy.special import owens_t, ndtr
+    if r >= 1.0:
+        return float(ndtr(min(h, k)))
+    if r <= -1.0:
+        return max(0.0, float(ndtr(h) + ndtr(k) - 1.0))
+    if h == 0.0 and k == 0.0:
+        return 0.25 + math.asin(r) / (2.0 * math.pi)
+    s_ = math.sqrt((1.0 - r) * (1.0 + r))
+
+    def num(a, b):      # b - r*a
+        return (b - a) + a * (1.0 - r) if r > 0 else (b + a) - a * (1.0 + r)
+
+    def t_(x, n):       # T(x, n / (x s))
+        if x == 0.0:
+            return 0.25 if n > 0 else (-0.25 if n < 0 else 0.0)
+        return float(owens_t(x, n / (x * s_)))
+    beta = 0.0 if (h * k > 0 or (h * k == 0 and h + k >= 0)) else 0.5
+    return 0.5 * float(ndtr(h)) + 0.5 * float(ndtr(k)) - t_(h, num(h, k)) - t_(k, num(k, h)) - beta
+
+
+def bvn_ref_selfcheck(rng):
+    from scipy.stats import multivariate_normal as mvn
+    worst = 0.0
+    for i in range(60):
+        h, k, r = rng.uniform(-4, 4), rng.uniform(-4, 4), rng.uniform(-0.99, 0.99)
+        if i % 5 == 0:
+            k = h
+        if i % 7 == 0:
+            h = 0.0
+        if i % 11 == 0:
+            k = 0.0
+        worst = max(worst, abs(bvn_ref(h, k, r) - float(mvn.cdf([h, k], mean=[0, 0], cov=[[1, r], [r, 1]]))))
+    if worst > 1e-9:
+        raise RuntimeError(f'harness: the Owen-T reference for the bivariate normal disagrees with scipy mvn by {worst:.2e}')
+    return worst
+
+
+PHI2_NEAR_ONE_R = ([1.0 - 10.0 ** -k for k in range(1, 16)] + [1.0 - 5.0 * 10.0 ** -k for k in range(2, 16)]
+                   + [1.0 - 2.0 ** -52, 1.0 - 2.0 ** -53, 1.0])
+PHI2_NEAR_ONE_H = [-8.0, -5.0, -3.0, -2.0, -1.0, -0.5, 0.0, 0.3, 1.0, 2.0, 3.5, 6.0, 36.0, -36.0]
+
+
+def phi2_near_one(ctx, meas, drivers_ok, fm, rng0):
+    """|rho| -> 1 all the way (1 - 10^-k, 1 - 5 10^-k, k <= 15, the two doubles next to 1, exactly +-1; both signs) x (h1, h2)
+    with h2 = +-h1, h2 within a few sqrt(1 - rho^2) of +-h1 (where the high-correlation correction term of
+    Drezner-Wesolowsky carries the value) and unrelated h2, incl. tails.  phi2, M (compiled / py_func / Lean model, whose
+    `r2 != 0` guard is a branch of the model) against the Owen-T reference with the existing tolerance PHI2_ABS; phi3 with
+    x1 independent of (x2, x3) -- where it is M(b2, b3, rho) (N(b1) - N(-7)) by telescoping -- with PHI2_ABS + HULL_ABS."""
+    rng = ctx.rng('phi2-near-one')
+    meas.add('phi2:owen-ref-vs-scipy-mvn', bvn_ref_selfcheck(ctx.rng('phi2-ref-selfcheck')))
+    cases = []
+    for r in PHI2_NEAR_ONE_R:
+        for sg in (1.0, -1.0):
+            for h in PHI2_NEAR_ONE_H:
+                for k in (h, -h, h + 1e-3, h - 1e-4, -h + 1e-5, h * (1 + 1e-7) + 1e-9, 0.0, 1.0):
+                    cases.append((h, k, sg * r))
+    for i in range(600 if ctx.quick() else 6000):
+        r = 1.0 - 10.0 ** rng.uniform(-16, -1)
+        sg = rng.choice([1.0, -1.0])
+        h = rng.choice([rng.uniform(-4, 4), rng.uniform(-4, 4), 0.0, rng.uniform(-9, 9)])
+        s_ = math.sqrt(max(0.0, (1.0 - r) * (1.0 + r)))
+        k = sg * h + rng.choice([0.0, rng.uniform(-3, 3) * s_, rng.uniform(-3, 3) * s_, rng.uniform(-40, 40) * s_, rng.gauss(0, 1e-3)])
+        cases.append((h, k, sg * r))
+    cases = [(float(a), float(b), float(c)) for a, b, c in cases]
+    for name in ('phi2', 'M'):
+        fn = getattr(fm, name)
+        pf = pyfunc_of(fn)
+        sub = cases if name == 'phi2' else cases[::2]
+        comp = [call(fn, *c) for c in sub]
+        pyv = [call(pf, *c) for c in sub]
+        ops = [f'phi2 {f2b(c[0])} {f2b(c[1])} {f2b(c[2])}' for c in sub]
+        three_streams(ctx, meas, name + ' (|rho|->1)', ops, [{'h': c[0], 'k': c[1], 'r': c[2]} for c in sub], comp, pyv,
+                      drivers_ok, **TOL_PHI2_MODEL)
+        nbad = 0
+        for c, v in zip(sub, comp):
+            h, k, r = c
+            if abs(h) > 30 or abs(k) > 30:
+                ref = 0.0 if min(h, k) < -30 else float(ndtr1(min(h, k)))
+            else:
+                ref = bvn_ref(h, k, r)
+            if v[0] != 'f' or math.isnan(v[1]):
+                ctx.violation(f'{name}: no value', {'kernel': name, 'h': h, 'k': k, 'r': r, 'got': show(v)}, clause='accuracy')
+                continue
+            e = abs(v[1] - ref)
+            meas.add(f'{name}:abs-err-near-|rho|=1', e)
+            if not e <= PHI2_ABS:
+                nbad += 1
+                if nbad <= 3:
+                    ctx.violation(f'{name}: error {e:.3e} against the exact bivariate normal CDF exceeds {PHI2_ABS:g} '
+                                  f'(1 - |rho| = {1.0 - abs(r):.3g})',
+                                  {'kernel': name, 'h': h, 'k': k, 'r': r, 'got': v[1], 'exact': ref,
+                                   'one_minus_abs_rho': 1.0 - abs(r)}, clause='accuracy')
+    # phi3 with r12 = r13 = 0: the sum telescopes to M(b2, b3, r23) (N(b1) - N(-7)); exact value Phi(b1) Phi2(b2, b3; r23)
+    tol3 = PHI2_ABS + HULL_ABS
+    rs3 = PHI2_NEAR_ONE_R[::2] if ctx.quick() else PHI2_NEAR_ONE_R
+    nbad = n3 = 0
+    for r in rs3:
+        for sg in (1.0, -1.0):
+            for b1, b2, b3 in ((2.0, 0.0, 0.0), (0.5, 0.7, sg * 0.7), (-1.0, 1.0, sg * 1.0 + 1e-4)):
+                v = call(fm.phi3, b1, b2, b3, 0.0, 0.0, sg * r)
+                ref = float(ndtr1(b1)) * bvn_ref(b2, b3, sg * r)
+                case = {'kernel': 'phi3', 'b': [b1, b2, b3], 'r12': 0.0, 'r13': 0.0, 'r23': sg * r}
+                n3 += 1
+                if v[0] != 'f' or math.isnan(v[1]):
+                    ctx.violation('phi3: no value', dict(case, got=show(v)), clause='accuracy')
+                    continue
+                e = abs(v[1] - ref)
+                meas.add('phi3:abs-err-independent-x1-near-|rho|=1', e)
+                if not e <= tol3:
+                    nbad += 1
+                    if nbad <= 2:
+                        ctx.violation(f'phi3 with x1 independent of (x2, x3): error {e:.3e} against Phi(b1) Phi2(b2, b3; r23) exceeds '
+                                      f'{tol3:g}', dict(case, got=v[1], exact=ref), clause='accuracy')
+    ctx.count('phi3 (|rho|->1, independent x1)', n3, n3)
 
 
 # ------------------------------------------------------------------------------------------- root finders
@@ -1419,6 +1542,18 @@ def replay(ctx, path):
         elif k in ('N', 'n_vect'):
             bad = a[0] != 'f' or abs(a[1] - float(ndtr(x))) > HULL_ABS
             print('exact', float(ndtr(x)))
+    elif k in ('phi2', 'M') and 'h' in case:
+        fn = getattr(fm, k)
+        a, b = call(fn, case['h'], case['k'], case['r']), call(pyfunc_of(fn), case['h'], case['k'], case['r'])
+        ref = bvn_ref(case['h'], case['k'], case['r']) if abs(case['h']) <= 30 and abs(case['k']) <= 30 else case.get('exact')
+        print(f"{k}({case['h']!r}, {case['k']!r}, {case['r']!r}): compiled={show(a)} py_func={show(b)} exact={ref!r}")
+        bad = (not same(a, b, 1e-9, 1e-13)) if v.get('clause') == 'compiled-eq-source' else (a[0] != 'f' or abs(a[1] - ref) > PHI2_ABS)
+    elif k == 'phi3' and case.get('r12') == 0.0 and case.get('r13') == 0.0:
+        b = case['b']
+        a = call(fm.phi3, b[0], b[1], b[2], 0.0, 0.0, case['r23'])
+        ref = float(ndtr1(b[0])) * bvn_ref(b[1], b[2], case['r23'])
+        print(f'phi3({b}, 0, 0, {case["r23"]!r}) = {show(a)} exact={ref!r}')
+        bad = a[0] != 'f' or abs(a[1] - ref) > PHI2_ABS + HULL_ABS
     elif case.get('solver') == 'bisection':
         a = (case['fam'],) + tuple(case['coef'])
         r = call(S.bisection, fam_f, case['x1'], case['x2'], a, case['xtol'], case['maxiter'])
